@@ -28,8 +28,9 @@ RULE = ("(a) in-process: 2-3 tasks per terminal run sdo_read, expedited "
         "is opened at every point between the first opener's O_EXCL create "
         "and its initialising write (os proxy), then both take counters; "
         "(c) cross-process: 2-3 real processes each perform m locked "
-        "exchanges on one lock file with random sleeps, appending to a "
-        "shared log. History checker: no other user's request between a "
+        "exchanges on one lock file with random sleeps and, in most rounds, "
+        "injected delays before and after every pread/pwrite/lockf of the "
+        "lock protocol, appending to a shared log. History checker: no other user's request between a "
         "request and the read of its response, counter chain 1..7 with no "
         "repeat or gap (only the very first may be 0), late opener gets a "
         "valid counter. a case = one history; non-trivial = >= 2 users "
@@ -173,9 +174,35 @@ def check_events(evs):
 WORKER = r'''
 import sys, os, asyncio, random, time
 sys.path.insert(0, %(repo)r)
+import ebpfcat.lock as L
 from ebpfcat.lock import LockFile, ParallelMailboxLock
 path, who, m, seed = sys.argv[1], int(sys.argv[2]), int(sys.argv[3]), int(sys.argv[4])
+delays = sys.argv[5] == "1"
 rng = random.Random(seed)
+# injected delays between the system calls of the lock protocol: a real
+# process can be preempted between any two of them
+def nap():
+    if delays and rng.random() < 0.35:
+        time.sleep(rng.random() * 0.0015)
+class OSProxy:
+    def __getattr__(self, n):
+        return getattr(os, n)
+    def pread(self, *a):
+        nap(); r = os.pread(*a); nap(); return r
+    def pwrite(self, *a):
+        nap(); r = os.pwrite(*a); nap(); return r
+class FcntlProxy:
+    def __getattr__(self, n):
+        return getattr(L_fcntl, n)
+    def lockf(self, *a):
+        nap()
+        try:
+            return L_fcntl.lockf(*a)
+        finally:
+            nap()
+L_fcntl = L.fcntl
+L.os = OSProxy()
+L.fcntl = FcntlProxy()
 async def main():
     lf = LockFile(path, 1000, 1100)
     lock = ParallelMailboxLock(lf, 1042)
@@ -199,8 +226,10 @@ def xproc_round(rng, tmpdir, res):
     m = rng.randint(20, 60)
     path = os.path.join(tmpdir, f"x{rng.getrandbits(30)}")
     script = WORKER % dict(repo=REPO)
+    delays = rng.random() < 0.7
     procs = [subprocess.Popen([PYTHON, "-c", script, path, str(w), str(m),
-                               str(rng.getrandbits(30))],
+                               str(rng.getrandbits(30)),
+                               "1" if delays else "0"],
                               stderr=subprocess.PIPE)
              for w in range(nproc)]
     errs = []
@@ -213,7 +242,9 @@ def xproc_round(rng, tmpdir, res):
             return
         if p.returncode:
             errs.append(err.decode(errors="replace")[-300:])
-    desc = dict(mode="xproc", processes=nproc, exchanges=m)
+    desc = dict(mode="xproc", processes=nproc, exchanges=m,
+                injected_delays=delays)
+    res.count("xproc_rounds_" + ("with_delays" if delays else "plain"))
     with open(path + ".log") as f:
         lines = [l.split() for l in f.read().splitlines()]
     overlap = 0
